@@ -1,6 +1,7 @@
 import LunarVerif.Base.Proto
 import LunarVerif.Spec.C18
 import LunarVerif.Spec.C18Sharing
+import LunarVerif.Spec.C18Expire
 /-! Driver for C18.
   `access s=<struct> f=<field> fn=<func> w=<0|1> locks=<name:x|r,...|-> atomic=<0|1> init=<0|1>`
      one extracted access fact (a case = all facts of one field); answer `ok`.
@@ -56,6 +57,24 @@ def parseObs (s : String) : Option (List Obs) :=
 structure RunSt where
   scripts : Scripts := []
   tctx : TCtx := fresh
+  ex : Expire.St := {}
+
+/-- `xadd k=<key> d=<ms>` | `xdiscard k=<key>` | `xsleep n=<ms>` | `xsweep keys=<k1,k2,...>` -/
+def parseX (ws : List String) : Option Expire.Op :=
+  match ws with
+  | "xadd" :: r => do pure (.add (pctDec (← kv r "k")) (← kvNat r "d"))
+  | "xdiscard" :: r => do pure (.discard (pctDec (← kv r "k")))
+  | "xsleep" :: r => do pure (.sleep (← kvNat r "n"))
+  | "xsweep" :: _ => some .sweep
+  | _ => none
+
+def xKeys (ws : List String) : List String :=
+  match kv ws "keys" with
+  | some s => if s == "-" then [] else (s.splitOn ",").map pctDec
+  | none => []
+
+def fmtKeys (ks : List String) : String :=
+  if ks.isEmpty then "-" else ",".intercalate (ks.map pctEnc)
 
 def runStep (s : RunSt) (line : String) : RunSt × String :=
   match words line with
@@ -66,6 +85,15 @@ def runStep (s : RunSt) (line : String) : RunSt × String :=
   | "script" :: ws => match parseScript ws with
     | some sc => ({ s with scripts := s.scripts ++ [sc] }, "ok")
     | none => (s, "bad-op")
+  | "xadd" :: _ | "xdiscard" :: _ | "xsleep" :: _ =>
+    match parseX (words line) with
+    | some op => ({ s with ex := Expire.step s.ex op }, "ok")
+    | none => (s, "bad-op")
+  | "xsweep" :: ws =>
+    let ex := Expire.step s.ex .sweep
+    ({ s with ex := ex }, "present=" ++ fmtKeys (Expire.present ex (xKeys ws)))
+  | "retain" :: _ => (s, "stable")          -- a lookup's answer is a value: later lookups cannot change it
+  | "retain-conc" :: _ => (s, "stable")
   | "stress-sadd" :: _ => (s, "ok")        -- every one-at-a-time order admits at most `max`
   | "stress-incwindow" :: _ => (s, "ok")
   | "stress-queue-publish" :: _ => (s, "ok")   -- Properties.C18.no_request_lost: no schedule forgets a waiting request
@@ -77,6 +105,7 @@ def runStep (s : RunSt) (line : String) : RunSt × String :=
   | _ => (s, "bad-op")
 
 structure JudgeSt where
+  ex : Expire.St := {}
   accs : List Access := []
   scripts : Scripts := []
   obs : List Obs := []
@@ -91,6 +120,22 @@ def judgeStep (s : JudgeSt) (op out : String) : JudgeSt :=
   | "script" :: ws => match parseScript ws with
     | some sc => { s with scripts := s.scripts ++ [sc] }
     | none => { s with bad := some "unparsable-script" }
+  | "xadd" :: _ | "xdiscard" :: _ | "xsleep" :: _ =>
+    match parseX (words op) with
+    | some o => { s with ex := Expire.step s.ex o }     -- only `now` and the ghost table `want` are used below
+    | none => { s with bad := some "unparsable-expire-op" }
+  | "xsweep" :: _ =>
+    let ex := { s.ex with now := s.ex.now }
+    match (words out) with
+    | [p] =>
+      if p.startsWith "present=" then
+        let ks := xKeys [("keys=" ++ (p.drop 8).toString)]
+        if Expire.liveKept ex ks then s
+        else { s with bad := some ("live-stored-request-removed-by-cleanup:" ++ pctEnc out) }
+      else { s with bad := some ("unparsable-sweep-answer:" ++ pctEnc out) }
+    | _ => { s with bad := some ("unparsable-sweep-answer:" ++ pctEnc out) }
+  | "retain-conc" :: _ => if out == "stable" then s else { s with bad := some ("lookup-answer-changed-by-another-transaction:" ++ pctEnc out) }
+  | "retain" :: _ => if out == "stable" then s else { s with bad := some ("lookup-answer-changed-by-another-transaction:" ++ pctEnc out) }
   | "stress-sadd" :: _ => if out == "ok" then s else { s with bad := some ("atomic-core-bound-exceeded:" ++ pctEnc out) }
   | "stress-incwindow" :: _ => if out == "ok" then s else { s with bad := some ("atomic-core-bound-exceeded:" ++ pctEnc out) }
   | "stress-queue-publish" :: _ => if out == "ok" then s else { s with bad := some ("queued-request-forgotten-by-loop:" ++ pctEnc out) }
